@@ -33,6 +33,7 @@ FilterText(f) ==
     [] f = "err"   -> "to_integer(request.target.host) == 7"
     [] f = "l1"    -> "request.listener == \"l1\""
     [] f = "udp"   -> "request.feature == \"UdpForward\""
+    [] f = "ubind" -> "request.feature == \"UdpBind\""
     [] f = "src10" -> "cidr_match(request.source.host, \"10.0.0.0/8\")"
     [] f = "p80"   -> "request.target.port == 80"
     [] f = "dom"   -> "request.target.type == \"domain\""
@@ -42,7 +43,7 @@ FilterText(f) ==
     [] f = "syntax" -> "request.listener == "            \* does not compile
     [] f = "illtyped" -> "request.listener + 1"           \* compiles, does not type-check (not boolean)
     [] f = "none"  -> ""
-FilterIds == {"none", "true", "false", "err", "l1", "udp", "src10", "p80", "dom", "host", "srcre", "tgt"}
+FilterIds == {"none", "true", "false", "err", "l1", "udp", "ubind", "src10", "p80", "dom", "host", "srcre", "tgt"}
 BadFilterIds == {"syntax", "illtyped"}
 
 IsDigits(h) == h \in {"7", "80", "65535"}
@@ -54,6 +55,7 @@ Holds(f, r) ==
     [] f = "err"   -> IF r.target.kind = "domain" /\ IsDigits(r.target.host) THEN B(r.target.host = "7") ELSE "E"
     [] f = "l1"    -> B(r.listener = "l1")
     [] f = "udp"   -> B(r.feature = "UdpForward")
+    [] f = "ubind" -> B(r.feature = "UdpBind")
     [] f = "src10" -> B(r.source.in10)
     [] f = "p80"   -> B(r.target.port = 80)
     [] f = "dom"   -> B(r.target.kind = "domain")
